@@ -4,7 +4,7 @@
 (* without pending) / checkpoint delete over a few paths (some git-ignored).  *)
 EXTENDS Changes, TLC, Json
 CONSTANTS Paths, Ignored, MaxC, MaxCommits, EmitDepth, KeepStalePending
-VARIABLES s, last, hist, seen   \* seen[p]: every content p ever had in the working tree (ghost)
+VARIABLES s, last, hist, seen   \* seen[p]: every content p ever had in the working tree or the index (ghost)
 vars == <<s, last, hist, seen>>
 View == <<s, last, seen>>
 Content == 1..MaxC
@@ -15,7 +15,7 @@ Init == /\ LET t0 == [p \in Paths |-> IF p \in Ignored THEN 0 ELSE 1] IN
         /\ last = [a |-> "init"] /\ hist = <<>>
         /\ seen = [p \in Paths |-> IF p \in Ignored THEN {0} ELSE {1}]
 Do(s2, rec) == /\ s' = s2 /\ last' = rec /\ hist' = Append(hist, rec)
-               /\ seen' = [p \in Paths |-> seen[p] \cup {s2.wt[p]}]
+               /\ seen' = [p \in Paths |-> seen[p] \cup {s2.wt[p], s2.idx[p]}]   \* staged content counts as content the path had
 
 DoWrite(p, c)  == s.wt[p] # c /\ Do(Write(s, p, c), [a |-> "write", p |-> p, c |-> c])
 DoDelete(p)    == s.wt[p] # 0 /\ Do(Delete(s, p), [a |-> "delete", p |-> p])
